@@ -933,14 +933,24 @@ func ruleSibBound(c *Ctx, r *R) {
 			continue
 		}
 		n++
-		has := false
-		for _, b := range fn.Blocks {
-			for _, ins := range b.Instrs {
-				if ta, ok := ins.(*ssa.TypeAssert); ok && typeIs(ta.AssertedType, ottoPath, "bindFunctionObject") {
-					has = true
+		// in the method itself or in a helper it calls (the unwrapping of a bound function extracted into a method)
+		var asserts func(f *ssa.Function, depth int) bool
+		asserts = func(f *ssa.Function, depth int) bool {
+			for _, b := range f.Blocks {
+				for _, ins := range b.Instrs {
+					if ta, ok := ins.(*ssa.TypeAssert); ok && typeIs(ta.AssertedType, ottoPath, "bindFunctionObject") {
+						return true
+					}
+					if call, ok := ins.(*ssa.Call); ok && depth < 2 {
+						if cal := call.Call.StaticCallee(); cal != nil && cal.Blocks != nil && cal.Pkg == fn.Pkg && cal != fn && len(cal.Blocks) <= 8 && asserts(cal, depth+1) {
+							return true
+						}
+					}
 				}
 			}
+			return false
 		}
+		has := asserts(fn, 0)
 		r.check(has, "(*object)."+fn.Name(), c.Pos(fn.Pos()), role+" has a case for the bound-function payload",
 			fmt.Sprintf("(*object).%s implements %s for every function object but has no case for bindFunctionObject, although its siblings do: a bound function is treated like an ordinary function (for [[HasInstance]]: `function C(){}; new C instanceof C.bind(null)` is false, ES5 15.3.4.5.3 delegates to the target)", fn.Name(), role))
 	}
